@@ -95,6 +95,9 @@ func c19Text(r *RNG, n int, newlines bool) []byte {
 
 func c19BoardSize(r *RNG, max int) int {
 	var n int
+	if max >= 65535 && r.Chance(12) { // the last bytes a 16-bit field size can express
+		return r.Pick(65531, 65532, 65533, 65534, 65535)
+	}
 	switch r.Intn(10) {
 	case 0:
 		n = 0
@@ -600,7 +603,7 @@ func c19PlanCanon(p c19Plan) string {
 
 func init() {
 	props["C19"] = func(x *Ctx) {
-		x.rule = "post-format: random template/date format (default and custom), names and bodies with \\n, \\r, NUL, high bytes, 1-4 connected clients, 1-4 posts interleaved with gets, board up to the 64 KiB field limit; distinct = (config, name, body, board size). " +
+		x.rule = "post-format: random template/date format (default and custom), names and bodies with \\n, \\r, NUL, high bytes, 1-4 connected clients, 1-4 posts interleaved with gets, board up to the 64 KiB field limit (12% of the cases: exactly 65531..65535 bytes, served whole); distinct = (config, name, body, board size). " +
 			"store-raw: random Seek/Read/Write scripts on the real FlatNews/Agreement; distinct = script. " +
 			"board-concurrent / board-forced / agreement-concurrent: 2-8 (thorough: up to 48) clients with 1-3 operations each on boards of 0..64 KiB (biased to sizes over 512 where io.ReadAll needs several Reads), run at once through the real handlers; forced = one client is held inside its operation by a gating store after its 1st..4th store call while the others start; " +
 			"post-fault: 1-3 clients; the persist step fails for a chosen post either because a directory sits at MessageBoard.txt.tmp (real FlatNews.Write error path) or because a wrapping store's Write fails; before and after it posts succeed; distinct = (fault kind, position, body, board size). board-reload: 2-4 posters x 2-4 posts and 0-2 readers through the real handlers while 1-3 goroutines loop (*FlatNews).Reload on boards of 8..60 KiB; non-trivial = at least one reload completed while a post was in flight. " +
@@ -640,6 +643,10 @@ func init() {
 func c19PostFormat(c *Case) {
 	r := c.R
 	initial := c19Text(r, c19BoardSize(r, 60000), r.Chance(30))
+	edge := r.Chance(12) // a board that fills the 16-bit field to its last bytes: served whole, no room for a post
+	if edge {
+		initial = c19Text(r, r.Pick(65531, 65532, 65533, 65534, 65535), false)
+	}
 	ts, err := newTS(TSOpt{Direct: true, Board: string(initial)})
 	if err != nil {
 		panic(err)
@@ -694,6 +701,11 @@ func c19PostFormat(c *Case) {
 		return
 	}
 	nPosts := 1 + r.Intn(4)
+	if edge {
+		nPosts = 0
+		c.Nontrivial(fmt.Sprintf("edge|%d", len(initial)))
+		c.Dist("post-format/board=65531..65535")
+	}
 	for i := 0; i < nPosts; i++ {
 		cc := clients[r.Intn(len(clients))]
 		bl := r.Pick(0, 1, 5, 30, 200, 1500)
